@@ -101,6 +101,19 @@ class DictCell:
         return DictCell(self.d)
 
 
+class SymKey:
+    """A dictionary key that is a symbolic scalar.  Keys of one dict are NOT assumed distinct: every lookup, store and
+    deletion compares the given key with each stored key by forking on equality."""
+
+    __slots__ = ("sym",)
+
+    def __init__(self, sym):
+        self.sym = sym
+
+    def __repr__(self):
+        return f"SymKey<{self.sym!r}>"
+
+
 class SeqV:
     """Immutable sequence value.
 
